@@ -171,7 +171,8 @@ pub fn matrix(expression: Expression) -> Expression {
                 }
             }
 
-            if matrix {
+            // NOTE: Columns are addressed by a single char, which caps how many of them there can be.
+            if matrix && fields.len() < 0xD800 {
                 let mut columns: Vec<(String, u32)> = fields.into_iter().collect();
                 columns.sort_by(|x, y| x.1.cmp(&y.1));
                 let columns: Vec<String> = columns.into_iter().map(|(c, _)| c).collect();
